@@ -917,9 +917,9 @@ func (b *builder) field(fl *File, scope string, x *Field, extendee string, oneof
 					if fd.GetLabel() != descriptorpb.FieldDescriptorProto_LABEL_REPEATED && oneof == nil && x.Label != "optional" {
 						b.checkEnumUse(fl, full, sym, enumNode)
 					} else if def := b.ws.File(sym.File); fl.Syntax == "proto3" && def != nil && (def.Syntax == "proto2" || def.Syntax == "") {
-						// protoc's rule for repeated / optional / oneof proto3 fields of a proto2 enum
-						// cannot be established offline (the Go runtime rejects them)
-						b.unk("proto3 field %s with presence or repeated uses proto2 enum %s", full, sym.Name)
+						// protoc's ValidateProto3Field applies to every field of a proto3 file, whatever
+						// its label (the Go runtime rejects these descriptors as well)
+						b.rej("proto3-field-closed-enum", "proto3 field %s uses proto2 enum %s", full, sym.Name)
 					}
 				}
 			}
